@@ -38,5 +38,5 @@ def plan(tier):
     p.bound = "text / payload length <= %d, integers |i| < 100000, one array shape" % maxl
     p.not_covered = ("which handler paths put client text into which reply (CommandHandler is async + the whole engine); "
                      "non-ASCII text; longer text")
-    p.per_harness_timeout = 400 if tier == "quick" else 1200
+    p.per_harness_timeout = 900 if tier == 'quick' else 1200
     return p
